@@ -43,6 +43,9 @@ def val_lines(ctx):
     for _ in range(300 if ctx.quick() else 5000):
         tok, t, b = progs.rand_value(rng)
         L.append(("t " + tok, t))
+    # generic values outside the representable domain must be refused, never written as something else
+    for tok in progs.OUT_OF_DOMAIN:
+        L.append(("t " + tok, progs.REFUSED)); L.append(("t some " + tok, progs.REFUSED))
     # hours beyond two digits
     for secs in (0, 59, 3599, 3600, 86399, 86400, 359999, 360000, 3020399, 10**9):
         for us in (0, 1, 999999):
@@ -77,7 +80,12 @@ def run(ctx):
         kind = line.split(" ")[1].split(":")[0]
         corr["hist"][kind] = corr["hist"].get(kind, 0) + 1
         bad = None
-        if a.startswith("ok "):
+        if exp == progs.REFUSED:
+            if a.startswith("ok "):
+                bad = "a value outside the representable domain was accepted and written as %s" % a[3:60]
+            elif a.startswith("panic"):
+                bad = "panicked: " + a
+        elif a.startswith("ok "):
             got, whole = decode_cell(a[3:])
             if not whole:
                 bad = "cell is not exactly one NULL marker or one length-encoded string"
